@@ -660,6 +660,9 @@ def full_api_adjoint(rep, seed, n=80):
             ("x_dot_const", lambda x: algopy.sum(algopy.dot(algopy.reshape(x * x, (2, 2)), W22) * W22.T)),
             ("const_dot_vec", lambda x: algopy.sum(algopy.dot(W22, x[:2] * x[2:]) * W2)),
             ("eigh_vectors", lambda x: (lambda A: algopy.sum(algopy.eigh(A + A.T + numpy.array([[3., 0.], [0., -4.]]))[1] * W22))(algopy.reshape(x, (2, 2)))),
+            ("eig_values", lambda x: algopy.sum(algopy.real(algopy.eig(algopy.reshape(x, (2, 2)) + numpy.array([[3., 1.], [0.5, -1.]]))[0]) * W2)),
+            ("lu_factors", lambda x: (lambda WLU: algopy.sum(WLU[1] * W22) + algopy.sum(WLU[2] * W22.T))(algopy.lu(algopy.reshape(x, (2, 2)) + numpy.array([[0.1, 2.], [3., 0.2]])))),
+            ("cholesky_solve", lambda x: (lambda A: algopy.sum(algopy.solve(algopy.cholesky(algopy.dot(A, A.T) + numpy.array([[3., 1.], [1., 4.]])), A) * W22))(algopy.reshape(x, (2, 2)))),
             ("dot_mv", lambda x: algopy.sum(algopy.dot(algopy.reshape(x, (2, 2)), x[:2] * x[:2]) * W2)),
             ("dot_vm", lambda x: algopy.sum(algopy.dot(x[:2] * x[:2], algopy.reshape(x, (2, 2))) * W2)),
             ("reshape_noncontiguous", lambda x: algopy.sum(algopy.reshape(algopy.reshape(x * x, (2, 2)).T, (4,)) * numpy.array([1., 2., 3., 4.]))),
@@ -685,13 +688,16 @@ def full_api_adjoint(rep, seed, n=80):
         D = rnd.choice([1, 2, 3, 4]); P = rnd.choice([1, 2])
         x = numpy.array([[[rnd.uniform(0.3, 1.3) for _ in range(4)] for _ in range(P)] for _ in range(D)])
         x[1:] *= 0.7
+        if name == "eig_values":
+            D = min(D, 2)          # documented: the general eigendecomposition supports first-order polynomials only
+            x = x[:D]
         if name.endswith("mixed_pivots"):
             # directions whose zeroth coefficients need different row pivoting
             P = 2
             x = numpy.array([[[rnd.uniform(0.3, 1.3) for _ in range(4)] for _ in range(P)] for _ in range(D)])
             x[1:] *= 0.7
-            x[0, 0, 0], x[0, 0, 2] = 1.2, 0.4
-            x[0, 1, 0], x[0, 1, 2] = 0.3, 1.1
+            x[0, 0] = [1.2, 0.3, 0.4, 1.0]          # |x0| > |x2|: no row interchange, det = 1.08
+            x[0, 1] = [0.3, 1.0, 1.1, 0.2]          # |x0| < |x2|: rows interchanged, det = -1.04
         v = numpy.array([[[rnd.uniform(-1, 1) for _ in range(4)] for _ in range(P)] for _ in range(D)])
         sig = "full-api adjoint identity [%s]" % name
         rep.case(("fullapi-adj", name, it, D, P), nontrivial=True)
